@@ -17,6 +17,20 @@ PROP = dict(
          "(regex fuzz, correspondence only); dout.rx / dout.match: the library's real regexps (go:linkname) against the model's byte matchers, "
          "bounded-exhaustive (token strings up to length 3 (quick) / 4-5 (thorough) after each keyword prefix, all 29 keys x value strings, glued keys, "
          "all single edits of valid lines, double edits sampled (quick) / all over a reduced alphabet (thorough)). "
+         "Scenario classes (after the random stream, every run; x10 in the thorough tier): (a) dout.seq = 2-5 calls on different batches, the "
+         "returned message lists kept and printed at return time and again after the last call, every fourth as dout.par = the calls of even / "
+         "odd index in two goroutines, 12 repetitions each; (b) the same line more than once in one call "
+         "with other lines in between (A X A, A A, A B A, A X A Y A for each of the 16 line families; every non-grammar sample around an event); "
+         "(c) every numeric position of every line family (35 templates: event id / edge / value, map key and value, every numeric key, SysStat "
+         "integer fields, register ids and values) re-spelled with 1, 2, 7 and 25 leading zeros, '-0' and (SysStat) '+' where the pattern admits "
+         "a sign, one position at a time and all at once, alone and in batches; digit strings of 30-80 characters; canonical values 8, 9, 10, 18, "
+         "100, 255 so that an octal / base-prefix reading shows; (g) dout.ctx = 29 lines with a known key and an enumerated value outside its "
+         "enumeration or arguments that do not parse (_panelType=Foo, EnvironmentalHealth=Weird, _support=Foo, SysStat=Foo:5, HWC#5=Enc ...) "
+         "alone, directly after each of 14 message-producing lines, between two events, repeated, and in random batches with well-formed, "
+         "near-miss and non-grammar lines: the record carries what the decoder returns for every distinct line alone, H1 = effects(batch) = "
+         "Spec.Out.readOutboundWith (the grammar's reading of every line it reads, the line's own effects for every outside line, in line "
+         "order; tag B:ctx); (f) lines of 201-6000 bytes; every record whose input or output carries a byte string longer than 200 bytes (and "
+         "every third other record) is executed a second time with DebugRWPhelpers on. "
          "non-trivial = some decoded message is non-empty; distinct = distinct record text",
     trusted_base=["regexp: the four patterns are hand-written byte matchers in the model (leftmost-first, '.' = one rune or invalid byte, never LF, '$' = end of text); equivalence with the library's real compiled regexps validated by bounded-exhaustive dout.match records + near-miss lines; regex_sources_tie / regex_alternations_tie pin the pattern texts and their alternation lists",
                   "strconv.ParseFloat(…,32) and encoding/json (networkConfigFromString) enter as oracle values computed by the harness",
@@ -35,7 +49,10 @@ CLAIM = dict(
          "line, an HWC# line with an unknown kind word: no event, no report) + unknown_kind_silent (explicit form, every left-hand side); kernels "
          "press_is_down_then_up, support_any_order / support_same_set (the switch loop on any list of parts) and support_line_any_order / "
          "support_lines_same_set (the same through the whole decoder on a _support= line), sysstat_any_subset_order, items_spec (reader and TrimExplode model "
-         "both meet the relational, functional specification ItemsOf of a ;-list); regex_sources_tie (the four regex source texts of the current code are the "
+         "both meet the relational, functional specification ItemsOf of a ;-list); decOut_context_free (ALL line lists, no domain hypothesis: the "
+         "effects of the decoded batch are the reader's effects of every well-formed / non-grammar line and, for every line the grammar says nothing "
+         "about — _panelType=Foo, EnvironmentalHealth=Weird, HWC#5=Enc ... — exactly the effects that line has when decoded alone, in line order: "
+         "no line repeats, drops or alters the message of a neighbour) + decOut_line_local, readOutboundWith_eq; regex_sources_tie (the four regex source texts of the current code are the "
          "ones the matchers implement) + regex_alternations_tie (the alternation lists parsed out of those sources are the matchers' keyword tables and name "
          "the same sets as the reader's tables); roundtrip_out (C03 o C04: for every message list of the C03 domain the encoder's lines lie in inDomainLines "
          "and decode to messages with exactly the effects of the originals, in order; normalisations stated at the theorem); "
